@@ -430,16 +430,19 @@ def plan_strings(values, assigned=None):
         cands = [lo + ("-" if lo else "v") + str(n).zfill(width) for n in range(k)]
         ok = all(c > lo and (hi is None or c < hi) for c in cands) and cands == sorted(cands) and len(set(cands)) == k
         if not ok:
-            # squeeze from above: v_k < hi, v_{k-1} < v_k, ...
-            cands = []
-            top = hi
-            for _ in range(k):
-                c = str_between(lo, top)
-                if c is None:
-                    raise Inconclusive("model needs %d strings strictly between %r and %r" % (k, lo, hi))
-                cands.append(c)
-                top = c
-            cands.reverse()
+            # find a base strictly inside the gap under which numbered names still fit below hi
+            cands, base_lo = None, lo
+            for _ in range(6):
+                base = str_between(base_lo, hi)
+                if base is None:
+                    break
+                trial = [base + str(n).zfill(width) for n in range(k)]
+                if all(c > lo and (hi is None or c < hi) for c in trial):
+                    cands = trial
+                    break
+                base_lo = base
+            if cands is None:
+                raise Inconclusive("model needs %d strings strictly between %r and %r" % (k, lo, hi))
         for v, c in zip(vs, cands):
             out[v] = c
     return out
